@@ -1,9 +1,16 @@
 package proxy
 
 import (
+	"context"
+	"io"
 	"sync/atomic"
 
+	"go.temporal.io/server/api/adminservice/v1"
+	"go.temporal.io/server/client/history"
 	"go.temporal.io/server/common/log/tag"
+	"google.golang.org/grpc/metadata"
+
+	"github.com/temporalio/s2s-proxy/config"
 )
 
 // ---------------------------------------------------------------------------
@@ -56,4 +63,122 @@ func verifAbstractSlice_atomicInt32(n int) []atomic.Int32 {
 		n = 1 << 24
 	}
 	return make([]atomic.Int32, n)
+}
+
+// ---------------------------------------------------------------------------
+// verifHarness_C20_handler: the real stream handler (metadata decode, observer
+// bookkeeping, panic capture, all three modes) with arbitrary ids in the
+// stream-open metadata, followed by a well-formed stream on the same server.
+
+func c20MD(kind int, label string) string {
+	switch kind {
+	case 0:
+		return verifNumString(verifNondetInt64(label)) // any decimal integer that fits an int64
+	case 1:
+		return "" // missing
+	case 2:
+		return "abc" // not a number
+	default:
+		return "99999999999999999999" // out of int64 range
+	}
+}
+
+func c20Serve(srv *adminServiceProxyServer, mode int, cc, cs, sc, ss string) (returned bool, err error) {
+	md := metadata.New(map[string]string{})
+	md.Set(history.MetadataKeyClientClusterID, cc)
+	md.Set(history.MetadataKeyClientShardID, cs)
+	md.Set(history.MetadataKeyServerClusterID, sc)
+	md.Set(history.MetadataKeyServerShardID, ss)
+	ctx, cancel := context.WithCancel(metadata.NewIncomingContext(context.Background(), md))
+	defer cancel()
+	done := false
+	var rerr error
+	if mode == 2 {
+		// routing mode: the initiator's stream ends at once; the reverse stream ends when half-closed
+		t := &rtTarget{ctx: ctx, cancel: cancel, fromTgt: make(chan *adminservice.StreamWorkflowReplicationMessagesRequest, 1),
+			broken: make(chan struct{}), resumeCh: make(chan struct{})}
+		close(t.fromTgt) // Recv: io.EOF
+		go func() {
+			rerr = srv.StreamWorkflowReplicationMessages(t)
+			done = true
+		}()
+	} else {
+		ini := &fwInit{ctx: ctx, in: make(chan c06Event, 1)}
+		ini.in <- c06Event{err: io.EOF}
+		go func() {
+			rerr = srv.StreamWorkflowReplicationMessages(ini)
+			done = true
+		}()
+	}
+	verifQuiesce()
+	verifQuiesce()
+	cancel()
+	verifQuiesce()
+	return done, rerr
+}
+
+func verifHarness_C20_handler() {
+	verifConfig("preempt", 0)
+	mode := verifChoose("mode", 3) // 0 default, 1 LCM, 2 routing
+	n := verifNondetInt("tableLen")
+	verifAssume(verifAnd(n >= 1, n <= 1<<30))
+	obs := NewReplicationStreamObserver(c20Logger{})
+	obs.streamActive = c20Table(n)
+	balance := 0
+	calls := 0
+	report := func(idx int32, v int32) {
+		calls++
+		balance += int(v)
+		obs.ReportStreamValue(idx, v)
+	}
+	var scc config.ShardCountConfig
+	var lcm LCMParameters
+	var rp RoutingParameters
+	switch mode {
+	case 1:
+		scc = config.ShardCountConfig{Mode: config.ShardCountLCM, LocalShardCount: 4, RemoteShardCount: 6}
+		lcm = LCMParameters{LCM: 12, TargetShardCount: 4}
+	case 2:
+		scc = config.ShardCountConfig{Mode: config.ShardCountRouting, LocalShardCount: 2, RemoteShardCount: 3}
+		rp = RoutingParameters{RoutingLocalShardCount: 2, DirectionLabel: "verif"}
+	}
+	e := rtNewEnv(1, 1)
+	src := e.newSource(0)
+	src.halfCloseEnds = true
+	fsrc := &fwSrc{in: make(chan c06Event, 1)}
+	fsrc.in <- c06Event{err: io.EOF}
+	srv := NewAdminServiceProxyServer("verif", &fwAdminClient{src: fsrc}, &rtAdminClient{src: src}, AdminServiceOverrides{}, []string{"l"},
+		report, scc, lcm, rp, wrLoggers(), e.sm, context.Background()).(*adminServiceProxyServer)
+
+	// first stream: arbitrary / malformed ids
+	kinds := [4]int{}
+	for i := range kinds {
+		if verifChoose("malformed-field", 5) == i+1 {
+			kinds[i] = verifChoose("malformation", 3) + 1
+		}
+	}
+	returned, err := c20Serve(srv, mode, c20MD(kinds[0], "clientCluster"), c20MD(kinds[1], "clientShard"), c20MD(kinds[2], "serverCluster"), c20MD(kinds[3], "serverShard"))
+	verifReach("first-stream-done")
+	verifAssert(returned, "handler-returns-for-every-id")
+	verifAssert(!verifMutexHeld(&obs.streamGrowLock), "observer-lock-released-after-stream")
+	verifAssert(balance == 0, "stream-bookkeeping-balanced")
+	if err != nil {
+		verifReach("rejected-with-error")
+	} else {
+		verifReach("served")
+	}
+	// a following well-formed stream is served normally
+	src2 := e.newSource(0)
+	src2.halfCloseEnds = true
+	srv.adminClientReverse = &rtAdminClient{src: src2}
+	fsrc2 := &fwSrc{in: make(chan c06Event, 1)}
+	fsrc2.in <- c06Event{err: io.EOF}
+	srv.adminClient = &fwAdminClient{src: fsrc2}
+	before := calls
+	returned2, err2 := c20Serve(srv, mode, "2", "1", "1", "3")
+	verifAssert(returned2, "following-well-formed-stream-is-served")
+	verifAssert(err2 == nil, "following-well-formed-stream-has-no-error")
+	verifAssert(calls == before+2 && balance == 0, "following-stream-bookkeeping-balanced")
+	verifAssert(!verifMutexHeld(&obs.streamGrowLock), "observer-lock-released-after-following-stream")
+	verifReach("follow-up-stream-served")
 }
